@@ -3,7 +3,7 @@
     Mirrors, at the grain "one read of the global / one lock operation per step",
 
     - [lock_tty_wrapper]'s [with _tty_lock, _tty_lock:] ([utils.py:224-234], same
-      pattern in [get_fg_bg_colors] / [get_terminal_name_version]):
+      pattern in [get_fg_bg_colors] / [get_terminal_name_version], [utils.py:505,539]):
       read the global; acquire; read the global again; acquire; body; release; release;
     - [_process_start_wrapper] ([utils.py:750-791]): read the global; acquire;
       [isinstance(_tty_lock, _rlock_type)]: if it still is the thread lock, replace the
@@ -26,7 +26,13 @@
     own, never issued from inside a body (the documented exclusion).
 
     [single cf = true] is the hypothetical variant with ONE [with] item, used only for
-    the refutation [second_acquire_needed].
+    the refutation [second_acquire_needed_refuted].
+
+    One micro-step of a thread = a thread-local transition [next] (which depends on the
+    thread's own state, the value of ITS process's global and, for a read of the reply
+    queue, the oldest reply) that names the ONE global effect of the step ([action]),
+    and [apply], which performs that effect on the shared state (and blocks: a lock held
+    by somebody else, no reply yet).
 
     Definitions only; proofs are in [proofs/LocksProofs.v]. *)
 From Coq Require Import List Arith Bool Lia.
@@ -101,108 +107,132 @@ Definition set_th (s : state) (t : nat) (x : thread) (ev : list event) : state :
      reqs := reqs s; reps := reps s; th := upd (th s) t x;
      log := rev (map (pair t) ev) ++ log s |}.
 
+Definition set_cur (s : state) (p : nat) (l : lref) : state :=
+  {| cur := upd (cur s) p l; started := started s; lkT := lkT s; lkM := lkM s;
+     reqs := reqs s; reps := reps s; th := th s; log := log s |}.
+
+Definition set_started (s : state) (p : nat) : state :=
+  {| cur := cur s; started := upd (started s) p true; lkT := lkT s; lkM := lkM s;
+     reqs := reqs s; reps := reps s; th := th s; log := log s |}.
+
+Definition set_io (s : state) (rq rp : list (nat * nat)) : state :=
+  {| cur := cur s; started := started s; lkT := lkT s; lkM := lkM s;
+     reqs := rq; reps := rp; th := th s; log := log s |}.
+
 Definition with_pc (x : thread) (p : pc) : thread :=
   {| t_pc := p; t_stack := t_stack x; t_togo := t_togo x; t_io := t_io x;
      t_todo := t_todo x; t_nreq := t_nreq x |}.
+
+Definition with_stack (x : thread) (p : pc) (st : list (lref * lref)) : thread :=
+  {| t_pc := p; t_stack := st; t_togo := t_togo x; t_io := t_io x;
+     t_todo := t_todo x; t_nreq := t_nreq x |}.
+
+(** the one effect a micro-step has on the shared state *)
+Inductive action :=
+| ANone                          (* thread-local (incl. a read of the global) *)
+| AAcq (l : lref)                (* [l.acquire()]: blocks while owned by another thread *)
+| ARel (l : lref)                (* [l.release()] *)
+| ASwap                          (* [_tty_lock = mp_RLock()] in the caller's process *)
+| AStart (c : nat) (h : lref)    (* the original [Process.start]: child [c] begins with [h] *)
+| AWrite (n : nat)               (* write request [n] to the terminal *)
+| ARead.                         (* consume the oldest reply; blocks while there is none *)
+
+(** thread-local transition: [sg] = single-[with] variant, [c] = the value of the
+    module global [_tty_lock] in the thread's process, [r] = the oldest unread reply *)
+Definition next (sg : bool) (c : lref) (r : option (nat * nat)) (x : thread)
+  : option (action * thread * list event) :=
+  match t_pc x with
+  | PIdle =>
+    match t_todo x with
+    | [] => None
+    | CCall d io :: rest =>
+      Some (ANone, {| t_pc := PRead1; t_stack := t_stack x; t_togo := d; t_io := io;
+                      t_todo := rest; t_nreq := t_nreq x |}, [])
+    | CStart ch :: rest =>
+      Some (ANone, {| t_pc := SRead ch; t_stack := t_stack x; t_togo := t_togo x;
+                      t_io := t_io x; t_todo := rest; t_nreq := t_nreq x |}, [])
+    end
+  (* [with _tty_lock, _tty_lock:]  utils.py:232 *)
+  | PRead1 => Some (ANone, with_pc x (PAcq1 c), [])
+  | PAcq1 l1 =>
+    if sg then Some (AAcq l1, with_stack x PBody ((l1, l1) :: t_stack x), [EAcq l1; EEnter])
+    else Some (AAcq l1, with_pc x (PRead2 l1), [EAcq l1])
+  | PRead2 l1 => Some (ANone, with_pc x (PAcq2 l1 c), [])
+  | PAcq2 l1 l2 =>
+    Some (AAcq l2, with_stack x PBody ((l1, l2) :: t_stack x), [EAcq l2; EEnter])
+  (* [return func(...)]  utils.py:234 *)
+  | PBody =>
+    match t_togo x with
+    | S d => Some (ANone, {| t_pc := PRead1; t_stack := t_stack x; t_togo := d;
+                             t_io := t_io x; t_todo := t_todo x; t_nreq := t_nreq x |}, [])
+    | 0 =>
+      if t_io x then
+        Some (AWrite (t_nreq x),
+              {| t_pc := PWait (t_nreq x); t_stack := t_stack x; t_togo := 0;
+                 t_io := t_io x; t_todo := t_todo x; t_nreq := S (t_nreq x) |},
+              [EWrite (t_nreq x)])
+      else Some (ANone, with_pc x PAfter, [])
+    end
+  | PWait n =>
+    match r with
+    | None => None
+    | Some rp => Some (ARead, with_pc x PAfter, [EReply (fst rp) (snd rp)])
+    end
+  | PAfter =>
+    match t_stack x with
+    | [] => None
+    | (l1, l2) :: rest =>
+      Some (ANone, with_stack x (if sg then PRel1 l1 else PRel2 l1 l2) rest, [EExit])
+    end
+  (* the two [__exit__]s, innermost first *)
+  | PRel2 l1 l2 => Some (ARel l2, with_pc x (PRel1 l1), [ERel l2])
+  | PRel1 l1 =>
+    Some (ARel l1, with_pc x (match t_stack x with [] => PIdle | _ => PAfter end), [ERel l1])
+  (* [_process_start_wrapper]  utils.py:759-779, 791 *)
+  | SRead ch => Some (ANone, with_pc x (SAcq ch c), [])
+  | SAcq ch l => Some (AAcq l, with_pc x (SCheck ch l), [EAcq l])
+  | SCheck ch l =>
+    Some (ANone, with_pc x (match c with
+                            | LT => SSwap ch l
+                            | LM => SRel ch l LM   (* [self._tty_lock = _tty_lock] *)
+                            end), [])
+  | SSwap ch l => Some (ASwap, with_pc x (SRel ch l LM), [ESwap])
+  | SRel ch l h => Some (ARel l, with_pc x (SStart ch h), [ERel l])
+  | SStart ch h => Some (AStart ch h, with_pc x PIdle, [EStart ch])
+  end.
+
+(** the effect on the shared state; [None] = the thread has to wait *)
+Definition apply (cf : cfg) (s : state) (t : nat) (a : action) : option state :=
+  match a with
+  | ANone => Some s
+  | AAcq l => if can_acquire (lk s l) t then Some (set_lk s l (acquire (lk s l) t)) else None
+  | ARel l => Some (set_lk s l (release (lk s l)))
+  | ASwap => Some (set_cur s (proc cf t) LM)
+  | AStart c h =>
+    (* the child begins with the handed lock as its global ([_process_run_wrapper]);
+       [Process.start] refuses to start a process twice (and there is no process object
+       for a running process to call it on) *)
+    if started s c then Some s else Some (set_started (set_cur s c h) c)
+  | AWrite n => Some (set_io s (reqs s ++ [(t, n)]) (reps s))
+  | ARead => match reps s with [] => None | _ :: rest => Some (set_io s (reqs s) rest) end
+  end.
 
 Definition step (cf : cfg) (s : state) (t : nat) : option state :=
   if Nat.eqb t (term_tid cf) then
     (* the terminal answers the oldest request *)
     match reqs s with
     | [] => None
-    | r :: rest =>
-      Some {| cur := cur s; started := started s; lkT := lkT s; lkM := lkM s;
-              reqs := rest; reps := reps s ++ [r]; th := th s; log := log s |}
+    | r :: rest => Some (set_io s rest (reps s ++ [r]))
     end
   else if negb (started s (proc cf t)) then None
   else
-    let x := th s t in
-    let p := proc cf t in
-    match t_pc x with
-    | PIdle =>
-      match t_todo x with
-      | [] => None
-      | CCall d io :: rest =>
-        Some (set_th s t {| t_pc := PRead1; t_stack := t_stack x; t_togo := d; t_io := io;
-                            t_todo := rest; t_nreq := t_nreq x |} [])
-      | CStart c :: rest =>
-        Some (set_th s t {| t_pc := SRead c; t_stack := t_stack x; t_togo := t_togo x;
-                            t_io := t_io x; t_todo := rest; t_nreq := t_nreq x |} [])
+    match next (single cf) (cur s (proc cf t)) (hd_error (reps s)) (th s t) with
+    | None => None
+    | Some (a, x', ev) =>
+      match apply cf s t a with
+      | None => None
+      | Some s1 => Some (set_th s1 t x' ev)
       end
-    | PRead1 => Some (set_th s t (with_pc x (PAcq1 (cur s p))) [])
-    | PAcq1 l1 =>
-      if can_acquire (lk s l1) t then
-        if single cf then
-          Some (set_th (set_lk s l1 (acquire (lk s l1) t)) t
-                       {| t_pc := PBody; t_stack := (l1, l1) :: t_stack x; t_togo := t_togo x;
-                          t_io := t_io x; t_todo := t_todo x; t_nreq := t_nreq x |}
-                       [EAcq l1; EEnter])
-        else Some (set_th (set_lk s l1 (acquire (lk s l1) t)) t (with_pc x (PRead2 l1)) [EAcq l1])
-      else None
-    | PRead2 l1 => Some (set_th s t (with_pc x (PAcq2 l1 (cur s p))) [])
-    | PAcq2 l1 l2 =>
-      if can_acquire (lk s l2) t then
-        Some (set_th (set_lk s l2 (acquire (lk s l2) t)) t
-                     {| t_pc := PBody; t_stack := (l1, l2) :: t_stack x; t_togo := t_togo x;
-                        t_io := t_io x; t_todo := t_todo x; t_nreq := t_nreq x |}
-                     [EAcq l2; EEnter])
-      else None
-    | PBody =>
-      match t_togo x with
-      | S d => Some (set_th s t {| t_pc := PRead1; t_stack := t_stack x; t_togo := d;
-                                   t_io := t_io x; t_todo := t_todo x; t_nreq := t_nreq x |} [])
-      | 0 =>
-        if t_io x then
-          Some (set_th {| cur := cur s; started := started s; lkT := lkT s; lkM := lkM s;
-                          reqs := reqs s ++ [(t, t_nreq x)]; reps := reps s; th := th s;
-                          log := log s |} t
-                       {| t_pc := PWait (t_nreq x); t_stack := t_stack x; t_togo := 0;
-                          t_io := t_io x; t_todo := t_todo x; t_nreq := S (t_nreq x) |}
-                       [EWrite (t_nreq x)])
-        else Some (set_th s t (with_pc x PAfter) [])
-      end
-    | PWait n =>
-      match reps s with
-      | [] => None
-      | r :: rest =>
-        Some (set_th {| cur := cur s; started := started s; lkT := lkT s; lkM := lkM s;
-                        reqs := reqs s; reps := rest; th := th s; log := log s |} t
-                     (with_pc x PAfter) [EReply (fst r) (snd r)])
-      end
-    | PAfter =>
-      match t_stack x with
-      | [] => None
-      | (l1, l2) :: rest =>
-        Some (set_th s t {| t_pc := if single cf then PRel1 l1 else PRel2 l1 l2; t_stack := rest;
-                            t_togo := t_togo x; t_io := t_io x; t_todo := t_todo x;
-                            t_nreq := t_nreq x |} [EExit])
-      end
-    | PRel2 l1 l2 =>
-      Some (set_th (set_lk s l2 (release (lk s l2))) t (with_pc x (PRel1 l1)) [ERel l2])
-    | PRel1 l1 =>
-      Some (set_th (set_lk s l1 (release (lk s l1))) t
-                   (with_pc x (match t_stack x with [] => PIdle | _ => PAfter end)) [ERel l1])
-    | SRead c => Some (set_th s t (with_pc x (SAcq c (cur s p))) [])
-    | SAcq c l =>
-      if can_acquire (lk s l) t then
-        Some (set_th (set_lk s l (acquire (lk s l) t)) t (with_pc x (SCheck c l)) [EAcq l])
-      else None
-    | SCheck c l =>
-      Some (set_th s t (with_pc x (match cur s p with
-                                   | LT => SSwap c l
-                                   | LM => SRel c l LM   (* [self._tty_lock = _tty_lock] *)
-                                   end)) [])
-    | SSwap c l =>
-      Some (set_th {| cur := upd (cur s) p LM; started := started s; lkT := lkT s; lkM := lkM s;
-                      reqs := reqs s; reps := reps s; th := th s; log := log s |} t
-                   (with_pc x (SRel c l LM)) [ESwap])
-    | SRel c l h =>
-      Some (set_th (set_lk s l (release (lk s l))) t (with_pc x (SStart c h)) [ERel l])
-    | SStart c h =>
-      (* the child begins with the handed lock as its global ([_process_run_wrapper]) *)
-      Some (set_th {| cur := upd (cur s) c h; started := upd (started s) c true;
-                      lkT := lkT s; lkM := lkM s; reqs := reqs s; reps := reps s;
-                      th := th s; log := log s |} t (with_pc x PIdle) [EStart c])
     end.
 
 (** only the root process runs; its global is the thread lock; a child process's global
